@@ -203,6 +203,12 @@ func (c *Classifier) match(in io.Reader) (Results, error) {
 			out = append(out, candidates[i])
 		}
 	}
+	if len(id.Tokens) == 0 {
+		// An input without words only gets this far with a threshold of 0, where
+		// it still passes the token similarity filter; it has no last token to
+		// take the line count from.
+		return Results{Matches: out, TotalInputLines: 0}, nil
+	}
 	return Results{
 		Matches:         out,
 		TotalInputLines: id.Tokens[len(id.Tokens)-1].Line,
